@@ -284,7 +284,7 @@ PROPS = {
                      'Cqos.C02.c02_subsequence', 'Cqos.C02.c02_tag', 'Cqos.C02.c02_simple', 'Cqos.Facts.gluePrioV2', 'Cqos.Facts.gluePrioV1', 'Cqos.C01.c02_simple_v2'],
         'runs': [{'cmd': 'stepper', 'args': ['-family', 'mixed']}, {'cmd': 'stepper', 'args': ['-family', 'terminate']},
                  {'cmd': 'stepper', 'args': ['-family', 'dynamic']},
-                 {'cmd': 'blackbox', 'args': ['-scenario', 'prio2,prio1,dynamic']}],
+                 {'cmd': 'blackbox', 'args': ['-scenario', 'prio2,prio1,dynamic,simple2,simple1']}],
         'monitor_prefix': ['C02'],
         'level': 'proof',
         'level_text': ('Lean theorems on the history variables of the scheduler machine (arrived, taken, delivered, dropped) for every '
@@ -325,12 +325,13 @@ PROPS = {
         'assumptions': ['H and totals < 2^63 (the unsigned difference after-before does not wrap onto the dividend)'],
     },
     'C07': {
-        'lean_targets': ['Cqos.Props.C07', 'Cqos.Props.C07p', 'Cqos.Props.C01s', 'Cqos.Facts.GluePrioV2', 'Cqos.Facts.GluePrioV1', 'Cqos.Props.C16s'],
+        'lean_targets': ['Cqos.Props.C07', 'Cqos.Props.C07p', 'Cqos.Props.C07t', 'Cqos.Props.C01s', 'Cqos.Facts.GluePrioV2', 'Cqos.Facts.GluePrioV1', 'Cqos.Props.C16s'],
         'facts': True,
         'theorems': ['Cqos.C07.tinv_step', 'Cqos.C07.tinv_run', 'Cqos.C07.c07_v2_only_then', 'Cqos.C07.c07_v1_graceful_only_then',
                      'Cqos.C07.stopped_false_v2', 'Cqos.C07.c07_no_error_calc', 'Cqos.C07.c07_no_error_recalc',
                      'Cqos.C15.c15_drain_progress', 'Cqos.C07.c07_prompt_step', 'Cqos.C07.c07_prompt',
-                     'Cqos.C07.c07_prompt_reachable', 'Cqos.C07.c07_prompt_unique', 'Cqos.C07.v2_static_run', 'Cqos.Facts.gluePrioV2', 'Cqos.Facts.gluePrioV1', 'Cqos.C01.c07_simple_v2', 'Cqos.SimpleV1.c19_simple_completed'],
+                     'Cqos.C07.c07_prompt_reachable', 'Cqos.C07.c07_prompt_unique', 'Cqos.C07.v2_static_run',
+                     'Cqos.C07.step_chans', 'Cqos.C07.quiesce_step', 'Cqos.C07.c07_quiescible', 'Cqos.C07.c07_terminable', 'Cqos.Facts.gluePrioV2', 'Cqos.Facts.gluePrioV1', 'Cqos.C01.c07_simple_v2', 'Cqos.SimpleV1.c19_simple_completed'],
         'runs': [{'cmd': 'stepper', 'args': ['-family', 'terminate']}, {'cmd': 'stepper', 'args': ['-family', 'mixed']},
                  {'cmd': 'stepper', 'args': ['-family', 'dynamic']},
                  {'cmd': 'blackbox', 'args': ['-scenario', 'prio2,prio1,simple1']}],
@@ -344,7 +345,9 @@ PROPS = {
                        'flight and no release is outstanding - whatever the control point - the discipline reaches done by its own '
                        'steps alone within 5n+12 of them (no release, arrival or timer needed), and what is enabled there is only '
                        'that step, irrelevant environment actions, or the interrupter tick winning Go\'s select on an unbuffered '
-                       'closed input (c07_prompt_reachable, c07_prompt_unique). Tied by the stepper (isDrainedInputs, waitZeroActual, base on closing/closed inputs)'),
+                       'closed input (c07_prompt_reachable, c07_prompt_unique). Termination stays reachable (c07_terminable): from EVERY reachable v2 state, '
+                       'once all registered inputs are closed, some continuation of handlers\' releases and own steps ends in done; and quiescence '
+                       '(nothing queued on undrained inputs, nothing in flight, no release unread) is reachable from every state (c07_quiescible). Tied by the stepper (isDrainedInputs, waitZeroActual, base on closing/closed inputs)'),
         'level_note': 'partial: the wall-clock length of a step and the select choice on an unbuffered closed input are runtime matters; v1 promptness of GracefulStop is not stated as a theorem (F1 shows it false for zero-share configurations); ' + 'trusted: correspondence by differential stepping (exact equality of actual/tactic/strategic/priorities/drained/output after each op); unbuffered inputs only open and empty; New/main/loop glue by black-box runs and facts',
         'rule': 'stepper families terminate and mixed: inputs closed at different rounds, releases withheld / grouped, graceful',
         'trusted_base': [],
@@ -419,14 +422,14 @@ PROPS = {
         'assumptions': ['saturation as a property of the action list (pollEmpty / pollClosed never occur)'],
     },
     'C06': {
-        'lean_targets': ['Cqos.Props.C06', 'Cqos.Props.C16', 'Cqos.Facts.GluePrioV2', 'Cqos.Props.C06d', 'Cqos.Props.C06i', 'Cqos.Props.C06e'],
+        'lean_targets': ['Cqos.Props.C06', 'Cqos.Props.C16', 'Cqos.Facts.GluePrioV2', 'Cqos.Props.C06d', 'Cqos.Props.C06i', 'Cqos.Props.C06e', 'Cqos.Props.C06f'],
         'facts': True,
         'theorems': ['Cqos.C06.c06_calc_idle', 'Cqos.C06.calc_wait_busy', 'Cqos.C06.w_step', 'Cqos.C06.c06_never_waits_idle',
                      'Cqos.C06.c06_head_served', 'Cqos.C06.c06_recalc_alone', 'Cqos.C06.c06_v1_zero_share_starves',
                      'Cqos.C15.c15_drain_progress', 'Cqos.C16.c16_exit_bound', 'Cqos.Facts.gluePrioV2', 'Cqos.C06.poll_enabled', 'Cqos.C06.c06_no_deadlock',
                      'Cqos.C06.skip_one', 'Cqos.C06.c06_phase1_delivers', 'Cqos.C06.v2_inputs_own_chan', 'Cqos.C06.c06_idle_delivers',
                      'Cqos.C06.noerr_step', 'Cqos.C06.sched_step', 'Cqos.C06.terminal', 'Cqos.C06.c06_deliverable',
-                     'Cqos.C06.sumRule_fair', 'Cqos.C06.sumRule_rate'],
+                     'Cqos.C06.sumRule_fair', 'Cqos.C06.sumRule_rate', 'Cqos.C06.step_effect', 'Cqos.C06.c06_every_item'],
         'runs': [{'cmd': 'stepper', 'args': ['-family', 'single']}, {'cmd': 'stepper', 'args': ['-family', 'mixed']},
                  {'cmd': 'stepper', 'args': ['-family', 'terminate']},
                  {'cmd': 'blackbox', 'args': ['-scenario', 'alone']}],
@@ -443,7 +446,8 @@ PROPS = {
                        'with no release and no other environment action; no reachable state is doomed (c06_deliverable): after ANY run of a v2 '
                        'discipline with a divider obeying the sum rule (Fair and Rate do: sumRule_fair, sumRule_rate), an item waiting at the '
                        'head of a registered undrained input is delivered by some continuation made only of handlers releasing what they hold '
-                       'and of the discipline\'s own steps (scheduler + lexicographic measure: queued items, occupied handlers, position in the round). The '
+                       'and of the discipline\'s own steps (scheduler + lexicographic measure: queued items, occupied handlers, position in the round); '
+                       'the same for an item at ANY position of the queue (c06_every_item, by induction on the items ahead, using the C02 history invariant). The '
                        'stepper reports blocked-with-nothing-in-flight and single-active-priority under-occupation exactly (no timing)'),
         'level_note': ('partial: c06_deliverable / c06_idle_delivers show that delivery stays reachable from every reachable state by releases and the '
                        'discipline\'s own steps alone; that these steps are actually taken needs fairness of the Go scheduler and handlers that '
